@@ -309,6 +309,14 @@ class ASym(ABase):
         if not is_sym(a) and not is_sym(b):
             a, b = float(a), float(b)
             return {'le': a <= b + TOL, 'lt': a < b, 'eq': abs(a - b) <= TOL}[op]
+        for x in (a, b):
+            if isinstance(x, (float, np.floating)) and math.isfinite(float(x)) and float(x) != int(float(x)):
+                # a rounded float64 constant meets an exact term: compare to the statement's 1e-9 tolerance
+                d = S._b_sub(a, b)
+                if op == 'eq':
+                    return S._land(S._b_cmp('le')(d, TOL), S._b_cmp('ge')(d, -TOL))
+                if op == 'le':
+                    return S._b_cmp('le')(d, TOL)
         return S._b_cmp(op)(a, b)
 
     def finite(self, x):
